@@ -268,3 +268,79 @@ func Compositions(n int, f func(plan []int) bool) {
 		}
 	}
 }
+
+// ---- in-memory file ------------------------------------------------------------------------
+
+// WriteRec is one physical write issued against a MemFile.
+type WriteRec struct {
+	Off  int64
+	Data []byte
+}
+
+// MemFile is an io.ReadWriteSeeker with sparse-file semantics (writing beyond the end
+// fills the gap with zeros). With Log set, every physical write is recorded.
+type MemFile struct {
+	Data []byte
+	Pos  int64
+	Log  *[]WriteRec
+}
+
+func (m *MemFile) Read(p []byte) (int, error) {
+	if m.Pos >= int64(len(m.Data)) {
+		return 0, io.EOF
+	}
+	n := copy(p, m.Data[m.Pos:])
+	m.Pos += int64(n)
+	return n, nil
+}
+
+func (m *MemFile) writeAt(p []byte, off int64) {
+	if m.Log != nil {
+		*m.Log = append(*m.Log, WriteRec{Off: off, Data: append([]byte{}, p...)})
+	}
+	ApplyWrite(&m.Data, off, p)
+}
+
+// ApplyWrite applies one physical write to an image.
+func ApplyWrite(img *[]byte, off int64, p []byte) {
+	if len(p) == 0 {
+		return
+	}
+	end := off + int64(len(p))
+	if end > int64(len(*img)) {
+		*img = append(*img, make([]byte, end-int64(len(*img)))...)
+	}
+	copy((*img)[off:], p)
+}
+
+func (m *MemFile) Write(p []byte) (int, error) {
+	m.writeAt(p, m.Pos)
+	m.Pos += int64(len(p))
+	return len(p), nil
+}
+
+func (m *MemFile) Seek(offset int64, whence int) (int64, error) {
+	var base int64
+	switch whence {
+	case io.SeekStart:
+	case io.SeekCurrent:
+		base = m.Pos
+	case io.SeekEnd:
+		base = int64(len(m.Data))
+	default:
+		return 0, errors.New("iox: bad whence")
+	}
+	if base+offset < 0 {
+		return 0, errors.New("iox: negative position")
+	}
+	m.Pos = base + offset
+	return m.Pos, nil
+}
+
+// MemFileAt is a MemFile that also implements io.WriterAt (like *os.File).
+type MemFileAt struct{ *MemFile }
+
+func (m MemFileAt) WriteAt(p []byte, off int64) (int, error) {
+	m.MemFile.writeAt(p, off)
+	return len(p), nil
+}
